@@ -30,6 +30,7 @@ def one(name):
     sd = VERIF / 'seeded' / name
     meta = json.loads((sd / 'meta.json').read_text())
     pid = meta['property']
+    check = meta.get('caught_by', pid)   # (a change whose mechanism belongs to another property's check is run against that one)
     if meta.get('superseded'):
         return name, pid, 'superseded', meta['superseded'][:200]
     tmp = Path(tempfile.mkdtemp(prefix=f'seedreg-{name}-'))
@@ -42,7 +43,7 @@ def one(name):
         if rc:
             return name, pid, 'does-not-apply', out[-200:]
         env = dict(os.environ, VERIF_REPO=str(wt), VERIF_EVIDENCE_DIR=str(tmp / 'ev'), VERIF_VIOL_DIR=str(tmp / 'viol'))
-        rc, out = sh(f'{VERIF}/check {pid}', env=env, timeout=3600)
+        rc, out = sh(f'{VERIF}/check {check}', env=env, timeout=3600)
         lines = [ln for ln in out.splitlines() if ln.startswith('VIOLATION')]
         if rc == 1 and lines:
             return name, pid, 'caught', lines[0][:300]
